@@ -93,7 +93,7 @@ def compress_case(ctx, idx, rng):
                 psi.A[i] = (np.ldexp(psi.A[i].real, k) + 1j * np.ldexp(psi.A[i].imag, k)) if np.iscomplexobj(psi.A[i]) else np.ldexp(psi.A[i], k)
         snap['binary_exponents_applied_to_A'] = ks
         ctx.event('compress_extreme_scale_cases')
-    res = psi.compress(tol, mode) if not (mode == 'left' and idx % 3 == 0) else psi.compress(tol)          # default mode is 'left'
+    res = psi.compress(np.float64(tol) if idx % 2 else tol, np.str_(mode) if idx % 7 == 0 else mode) if not (mode == 'left' and idx % 3 == 0) else psi.compress(tol)          # default mode is 'left'
     detail = snap
     if not ctx.ok('compress.returns-pair', isinstance(res, tuple) and len(res) == 2, f'returned {res!r}', detail):
         return
